@@ -3,7 +3,7 @@
 Confirms a seeded change in a scratch worktree (tests pass, demo fails with / passes without), runs the checks against it,
 stores it under /verif/seeded/<seed-id>/ with meta.json, removes the worktree."""
 import sys, os, subprocess, json, shutil, tempfile, time
-sid, src, pids = sys.argv[1:4]
+sid, src, pids = sys.argv[1:4]; src = os.path.abspath(src)
 wt = tempfile.mkdtemp(prefix="amshan_seed_"); os.rmdir(wt)
 def run(cmd, **kw): return subprocess.run(cmd, capture_output=True, text=True, **kw)
 meta = {"id": sid, "breaks_property": pids.split(",")[0], "checked_with": pids.split(","), "ran": []}
@@ -29,7 +29,7 @@ try:
     if ok or "--keep" in sys.argv:
         dst = f"/verif/seeded/{sid}"; os.makedirs(dst, exist_ok=True)
         for f in ("patch.diff", "demo.py", "notes.md"):
-            if os.path.exists(os.path.join(src, f)): shutil.copy(os.path.join(src, f), dst)
+            if os.path.exists(os.path.join(src, f)) and os.path.abspath(src) != os.path.abspath(dst): shutil.copy(os.path.join(src, f), dst)
         notes = open(os.path.join(src, "notes.md")).read() if os.path.exists(os.path.join(src, "notes.md")) else ""
         meta["needs_to_manifest"] = notes[:1200]
         json.dump(meta, open(os.path.join(dst, "meta.json"), "w"), indent=1)
